@@ -780,26 +780,15 @@ func (fr *frame) slice(x *ssa.Slice, st *State) *Val {
 // concat: string concatenation yields a fresh immutable array.
 func (fr *frame) concat(a, b *Val, st *State, at ssa.Instruction) *Val {
 	vc := fr.vc
-	la, lb := StrLen(a.T), StrLen(b.T)
-	// constant folding for two literals is done by the compiler already
-	arr := vc.fresh(fr.prefix+"cat", SInt)
-	n := Add(la, lb)
+	n := Add(StrLen(a.T), StrLen(b.T))
 	if at != nil {
 		fr.safety("overflow", at, st, Le(n, maxIntT))
 	}
 	// memory model: a string that exists is shorter than 2^48
 	vc.assume(st.reach, Lt(n, IntLit(maxLen)))
-	res := MkStr(arr, IntLit(0), n)
-	i := Sym(freshBinder("i"), SInt)
-	by := func(s *Term, k *Term) *Term { return App("bytes", BV(8), StrArr(s), Idx(StrOff(s), k)) }
-	ra := App("bytes", BV(8), arr, i)
-	vc.assume(True, Forall([]Binder{{i.Op, SInt}}, And(
-		Implies(And(Le(IntLit(0), i), Lt(i, la)), Eq(ra, by(a.T, i))),
-		Implies(And(Le(la, i), Lt(i, n)), Eq(ra, by(b.T, Sub(i, la))))), []*Term{ra}))
-	// concatenation with the empty string is the identity on abstract values
-	vc.assume(True, Implies(Eq(lb, IntLit(0)), Eq(App("sv", "SV", res), App("sv", "SV", a.T))))
-	vc.assume(True, Implies(Eq(la, IntLit(0)), Eq(App("sv", "SV", res), App("sv", "SV", b.T))))
-	return &Val{T: res, Ty: a.Ty}
+	// the result is the term cat(a,b): its bytes are given by facts that are
+	// instantiated for every occurrence when the query is built
+	return &Val{T: CatStr(a.T, b.T), Ty: a.Ty}
 }
 
 // ---------------------------------------------------------------- conversions, interfaces
